@@ -18,6 +18,23 @@ CHECKS = {
              'complete parsed contents (every container, every field, order) are compared with a reference derived from '
              'the generating model; exploration, not proof - strength is the number and diversity of documents.',
         note=TRUST_PY, design='C05'),
+    'C14': dict(
+        technique='bounded-exhaustive enumeration (3-identifier alphabet, depth 3) plus ' + PBT + 'a set-comprehension specification of lookup / resolution order / suffix search and an own identifier scanner',
+        text='The finite sub-domain named in the property (alphabet of 3, depth 3, every name x scope x single/pair/full '
+             'declaration set) is enumerated completely; beyond it Hypothesis samples parser-built contents and arbitrary '
+             'identifier candidates; exploration with an exhaustive core.',
+        note=TRUST_PY, design='C14'),
+    'C15': dict(
+        technique=PBT + 'a crash/exception-class oracle over structurally mutated well-formed documents (and an injected-invalid-out-event clause); optional atheris campaign in thorough',
+        text='Generated-input search: documents obtained from well-formed ASTs by 1-4 deletions/retypings/retaggings at '
+             'arbitrary depth; any exception other than the two documented classes is a violation; exploration.',
+        note=TRUST_PY + '; orjson as the JSON decoder', design='C15'),
+    'C16': dict(
+        technique='model-based generation of call histories (operation sequences interpreted against the real parser and a reference model), Hypothesis-driven and shrunk as one value',
+        text='Histories of parser constructions, loads and process() calls over several live instances and well-formed '
+             'and malformed documents; every result is compared with the reference contents of its document and all '
+             'earlier results are re-read after every step; exploration.',
+        note=TRUST_PY, design='C16'),
     'C17': dict(
         technique=PBT + 'an independent reference flattener/line splitter and the algebraic laws of the statement',
         text='Generated-input search over nested content (all accepted types, every Python line boundary); each law of '
